@@ -411,6 +411,7 @@ func main() {
 		}
 	}
 	notAfterStream(w, r, n)
+	kindStream(w, r, n)
 	w.Close()
 	fmt.Printf("c18: wrote %d cases\n", w.Len())
 }
